@@ -92,3 +92,25 @@ Section QCurve.
   Definition ll_loc (qc : v3 T) (offset chord : T) (ua : v3 T) : v3 T := vadd qc (vscale (offset * chord) ua).
 End QCurve.
 Arguments dist T : clear implicits.
+
+(* 316-343: section dihedral of a curve given by points: the curve is differenced over a small window of span fractions and the angle
+   of the chord in the y-z plane is taken with its quadrant, per side (the curve leaves the root along -[cos, sin] on the left and
+   +[cos, sin] on the right).  numpy.arctan2 is an oracle. *)
+Section QPoints.
+  Context {T : Type} {N : Num T}.
+  Local Open Scope num_scope.
+  Variable fatan2 : T -> T -> T.
+  Definition fd_window (s : T) : T * T :=
+    let h := nofZ 5 / nofZ 1000 in
+    let h2 := n1 / nofZ 100 in
+    if s <? h then (s, s + h2) else if nofZ 995 / nofZ 1000 <? s then (s - h2, s) else (s - h, s + h).
+  Definition dihedral_points (left_side : bool) (p0 p1 : v3 T) : T :=
+    if left_side then fatan2 (- (vz p1 - vz p0)) (- (vy p1 - vy p0)) else fatan2 (vz p1 - vz p0) (vy p1 - vy p0).
+  (* 398-402: section sweep of the same chord, with the per-side sign of a sweep given as an angle (negated on the left) *)
+  Variables (fatan fsq : T -> T).      (* np.arctan; the scalar power x**2, which NumPy evaluates with pow: an oracle, x*x over R *)
+  Definition sweep_points (left_side : bool) (p0 p1 : v3 T) : T :=
+    let dy := vy p1 - vy p0 in
+    let dz := vz p1 - vz p0 in
+    let a := - fatan ((vx p1 - vx p0) / nsqrt (fsq dy + fsq dz)) in
+    if left_side then - a else a.
+End QPoints.
